@@ -12,7 +12,7 @@ Lemma lock_key_lockish md k : lockish (lock_key_of md k) = true.
 Proof. destruct md; reflexivity. Qed.
 
 Definition cmd_keys (c : bcmd) : list key :=
-  match c with BSet k _ _ | BIncr k | BDel k | BGet k => [k] | BSetMany kvs => map fst kvs end.
+  match c with BSet k _ _ | BIncr k | BDel k | BGet k | BExpire k _ => [k] | BSetMany kvs => map fst kvs end.
 
 (* per backend: lock set duplicate-free, made of lock-shaped keys, covering every lock-shaped key present in the store;
    pending deletes are data keys *)
@@ -100,15 +100,17 @@ Proof. induction kvs as [|kv kvs IH]; intros d H; cbn [fold_left] in H; [exact H
 Definition tc_of (c : bcmd) : option tcmd :=
   match c with
   | BSet k v ttl => Some (TC (Set_ k v ttl None)) | BDel k => Some (TC (Del k)) | BSetMany kvs => Some (TC (SetMany kvs 0))
-  | BIncr k => Some (TC (Incr k 1 0)) | BGet _ => None
+  | BIncr k => Some (TC (Incr k 1 0)) | BGet _ => None | BExpire k ttl => Some (TC (Expire k ttl))
   end.
 Lemma tD_step t now c tc k' : tc_of c = Some tc -> In k' (tD (fst (tx_step [] t now tc))) -> In k' (tD t) \/ In k' (cmd_keys c).
 Proof.
-  destruct c as [k v ttl|k|k|kvs|k]; cbn [tc_of]; intros [= <-]; cbn [tx_step cmd_keys].
+  destruct c as [k v ttl|k|k|kvs|k|k ttl]; cbn [tc_of]; intros [= <-]; cbn [tx_step cmd_keys].
   - cbn. intro H. left. eapply d_discard_sub; exact H.
   - cbn zeta. match goal with |- context[s_get ?l now k] => destruct (s_get l now k) as [[]|] end; cbn; intro H; left; eapply d_discard_sub; exact H.
   - cbn. intros [<-|H]; [right; left; reflexivity|left; exact H].
   - cbn. intro H. left. eapply fold_discard_sub; exact H.
+  - intro H. left. destruct (s_look (tL t) now k) as [[d0 v0]|]; [exact H|]. destruct (in_d t k); [exact H|].
+    destruct (s_get (tB t) now k); exact H.
 Qed.
 
 Lemma overlay_bi w i now c tc : tc_of c = Some tc -> (forall k, In k (cmd_keys c) -> lockish k = false) -> (i < length (bks w))%nat ->
@@ -129,7 +131,7 @@ Proof.
             same_shape w (overlay_step w1 i now tc) /\ (forall j, BI w j -> BI (overlay_step w1 i now tc) j)).
   { intros w1 tc Htc S1 B1. assert (Hi1 : (i < length (bks w1))%nat) by (destruct S1 as (_ & _ & L & _); lia).
     destruct (overlay_bi w1 i now c tc Htc Hk Hi1) as [S2 B2]. split; [eapply same_shape_trans; eassumption|auto]. }
-  destruct c as [k v ttl|k|k|kvs|k]; cbn [body_step].
+  destruct c as [k v ttl|k|k|kvs|k|k ttl]; cbn [body_step].
   - pose proof (acquire_bi md now w i k Hi) as A. destruct (acquire md now w i k) as [w1 ok]. destruct A as (S1 & B1 & _).
     destruct ok; cbv beta iota zeta; [apply Ov; [reflexivity|assumption|assumption]|split; assumption].
   - pose proof (acquire_bi md now w i k Hi) as A. destruct (acquire md now w i k) as [w1 ok]. destruct A as (S1 & B1 & _).
@@ -146,6 +148,13 @@ Proof.
   - destruct (mems k (bD (get_b w i)) || isSome (s_look (bL (get_b w i)) now k)); [split; [apply same_shape_refl|auto]|].
     pose proof (under_bi w i (fun b : tmap => b) ltac:(reflexivity) Hi) as U. destruct (under w i (fun b : tmap => b)) as [w2 ok2]. destruct U as (S2 & B2 & _).
     split; assumption.
+  - pose proof (acquire_bi md now w i k Hi) as A. destruct (acquire md now w i k) as [w1 ok]. destruct A as (S1 & B1 & _).
+    destruct ok; cbn [negb]; cbv beta iota zeta; [|split; assumption].
+    assert (Hi1 : (i < length (bks w1))%nat) by (destruct S1 as (_ & _ & L & _); lia).
+    destruct (negb (isSome (s_look (bL (get_b w1 i)) now k)) && negb (mems k (bD (get_b w1 i)))).
+    + pose proof (under_bi w1 i (fun b : tmap => b) ltac:(reflexivity) Hi1) as U. destruct (under w1 i (fun b : tmap => b)) as [w2 ok2]. destruct U as (S2 & B2 & _).
+      destruct ok2; cbv beta iota zeta; [apply Ov; [reflexivity|eapply same_shape_trans; eassumption|auto]|split; [eapply same_shape_trans; eassumption|auto]].
+    + apply Ov; [reflexivity|assumption|assumption].
 Qed.
 
 Definition prog_ok (n : nat) (cs : list (nat * bcmd)) : Prop :=
